@@ -23,7 +23,11 @@ func C12CLI(r *simkit.Run) {
 	v := &MFile{Idx: 2, Version: Version(2), Name: Version(2) + "_f2.sql"}
 	v.Stmts = []Stmt{{ID: "f2.s0", Kind: KDDL, SQL: journalDDL}}
 	for k := 1; k < n; k++ {
-		v.Stmts = append(v.Stmts, MkStmt("f2", k, KInsert))
+		st := MkStmt("f2", k, KInsert)
+		// The inserted row also records the length of a text with a blank in it, so that an edit of
+		// nothing but white space inside the literal is a different statement.
+		st.SQL = strings.Replace(st.SQL, "(id) VALUES ('"+st.ID+"')", "(id, n) VALUES ('"+st.ID+"', length('a b'))", 1)
+		v.Stmts = append(v.Stmts, st)
 	}
 	k := 1 + t.Draw("fail-at", n-1) // statement k fails: k statements are recorded as applied
 	good := v.Stmts[k]
@@ -78,7 +82,7 @@ func C12CLI(r *simkit.Run) {
 	old := v.Stmts
 	fresh := 100
 	mk := func() Stmt { fresh++; return MkStmt("f2", fresh, KInsert) }
-	kinds := []string{"fix-only", "change", "insert", "delete", "swap", "truncate", "append"}
+	kinds := []string{"fix-only", "change", "insert", "delete", "swap", "truncate", "append", "respace-literal"}
 	kind := kinds[t.Draw("edit-kind", len(kinds))]
 	nw := append([]Stmt(nil), old...)
 	nw[k] = good // the failing statement is always repaired
@@ -102,6 +106,19 @@ func C12CLI(r *simkit.Run) {
 	case "append":
 		at = len(nw)
 		nw = append(nw, mk())
+	case "respace-literal":
+		var cand []int
+		for i, st := range nw {
+			if strings.Contains(st.SQL, "length('a b')") {
+				cand = append(cand, i)
+			}
+		}
+		if len(cand) == 0 {
+			kind = "fix-only"
+			break
+		}
+		at = cand[t.Draw("edit-at", len(cand))]
+		nw[at].SQL = strings.Replace(nw[at].SQL, "length('a b')", "length('a  b')", 1)
 	}
 	touches := len(nw) < k
 	for i := 0; i < k && i < len(nw); i++ {
